@@ -6,6 +6,8 @@ Action descriptions (field `Alt.act`):
                                        selected/only symbol, otherwise the tuple of selected symbols)
     ("user", id, [arg, ...])           => crate::rec::r(id, &[args])            returns u8
     ("fallible", id, [arg, ...])       =>? crate::rec::f(id, &[args])           returns Result<u8, ParseError<..>>
+    ("user_unit", id, [arg, ...])      => { crate::rec::r(id, &[args]); }       for `()`-typed nonterminals
+    ("fallible_unit", id, [arg, ...])  =>? crate::rec::f(id, &[args]).map(|_| ())
     ("userall", id)                    => crate::rec::r(id, &[<>])              `<>` = the selected (or all) symbols
     ("mutinc", id, name)               => { name = name.wrapping_add(1); crate::rec::r(id, &[name]) }   (needs <mut name:X>)
   arg := "name" (a u8 binding) | ("loc", "name") (a location binding, passed as `name as u8`)
@@ -39,6 +41,10 @@ def act_text(act, gname):
         return "crate::rec_%s::r(%d, &[%s])" % (gname, act[1], ", ".join(arg(a) for a in act[2]))
     if act[0] == "fallible":
         return "crate::rec_%s::f(%d, &[%s])" % (gname, act[1], ", ".join(arg(a) for a in act[2]))
+    if act[0] == "user_unit":
+        return "{ crate::rec_%s::r(%d, &[%s]); }" % (gname, act[1], ", ".join(arg(a) for a in act[2]))
+    if act[0] == "fallible_unit":
+        return "crate::rec_%s::f(%d, &[%s]).map(|_| ())" % (gname, act[1], ", ".join(arg(a) for a in act[2]))
     if act[0] == "userall":
         return "crate::rec_%s::r(%d, &[<>])" % (gname, act[1])
     if act[0] == "usereach":
@@ -63,7 +69,7 @@ def finalize(g: Grammar):
             act = getattr(a, "act", None)
             if act is not None:
                 a.action = act_text(act, g.name)
-                a.fallible = act[0] == "fallible"
+                a.fallible = act[0] in ("fallible", "fallible_unit")
     return g
 
 
@@ -156,6 +162,20 @@ def action_grammars():
         NT("IZ", [AA(["+", N("x", Tm("n"))], FA(53, "x"))], inline=True, ty="u8"),
         NT("IB", [AA(["-", N("y", Tm("n"))], FA(54, "y"))], inline=True, ty="u8"),
     ], tags=["inlined nonterminal mentioning two different inlined nonterminals", "inline dependency order"])))
+
+    # --- inlined nonterminals whose value is not used by the outer action: empty `()`-typed "gates" (fallible and not) and an
+    # unnamed u8-typed one; their actions still run, in symbol order, before the outer action
+    gs.append(finalize(Grammar("act_inline4", terms("n:u8 + ( ) ;"), [
+        NT("S", [
+            AA(["(", N("x", Tm("n")), Nt("GateF"), ")"], UA(70, "x")),
+            AA([";", Nt("GateU"), N("x", Tm("n")), Nt("GateF")], FA(71, "x")),
+            AA(["+", Nt("Skip"), N("y", Nt("IV")), Nt("GateU")], UA(76, "y")),
+        ], pub=True, ty="u8"),
+        NT("GateF", [AA([], ("fallible_unit", 72, []))], inline=True, ty="()"),
+        NT("GateU", [AA([], ("user_unit", 73, []))], inline=True, ty="()"),
+        NT("Skip", [AA([N("k", Tm("n"))], UA(74, "k"))], inline=True, ty="u8"),
+        NT("IV", [AA([N("k", Tm("n"))], FA(75, "k"))], inline=True, ty="u8"),
+    ], tags=["inlined nonterminal whose value is unused", "empty unit-typed inlined production with an action", "fallible gate"])))
 
     # --- repetition operators and groups: Vec in input order, Option, selected symbol of a group (C13 values)
     gs.append(finalize(Grammar("act_reps", terms("n:u8 , ; ( +"), [
@@ -329,7 +349,8 @@ def expand_alt(g, defs, nt, alt):
     return expand_seq(g, defs, list(alt.syms))
 
 
-def _shift(expr, off):
+def _shift(expr, off, memo=None):
+    memo = {} if memo is None else memo
     k = expr[0]
     if k == "leaf":
         return ("leaf", expr[1] + off)
@@ -338,21 +359,45 @@ def _shift(expr, off):
     if k == "look":
         return ("look", expr[1], expr[2] + off)
     if k == "sub":
-        return ("sub", _shift_node(expr[1], off))
+        return ("sub", _shift_node(expr[1], off, memo))
     if k in ("pairfst", "pairsnd", "inc", "some"):
-        return (k, _shift(expr[1], off))
+        return (k, _shift(expr[1], off, memo))
     if k in ("tuple", "vec"):
-        return (k, [_shift(e, off) for e in expr[1]])
+        return (k, [_shift(e, off, memo) for e in expr[1]])
     if k == "vecpush":
-        return ("vecpush", _shift(expr[1], off), _shift(expr[2], off))
+        return ("vecpush", _shift(expr[1], off, memo), _shift(expr[2], off, memo))
     return expr
 
 
-def _shift_node(n: Node, off):
-    n2 = Node(n.kind, n.id, [_shift(a, off) for a in n.args], n.ty)
+def _copy_node(n: Node, f, memo):
+    """copy of `n` with `f` applied to its argument and `pre` expressions; shared sub-nodes stay shared (memo by identity)"""
+    if id(n) in memo:
+        return memo[id(n)]
+    n2 = Node(n.kind, n.id, [], n.ty)
+    memo[id(n)] = n2
+    n2.pre = [f(a) for a in getattr(n, "pre", [])]
+    n2.args = [f(a) for a in n.args]
     if hasattr(n, "argkinds"):
         n2.argkinds = n.argkinds
     return n2
+
+
+def _shift_node(n: Node, off, memo=None):
+    memo = {} if memo is None else memo
+    return _copy_node(n, lambda a: _shift(a, off, memo), memo)
+
+
+def has_sub(expr):
+    k = expr[0]
+    if k == "sub":
+        return True
+    if k in ("pairfst", "pairsnd", "inc", "some"):
+        return has_sub(expr[1])
+    if k in ("tuple", "vec"):
+        return any(has_sub(e) for e in expr[1])
+    if k == "vecpush":
+        return has_sub(expr[1]) or has_sub(expr[2])
+    return False
 
 
 def expand_alt_node(g, defs, nt, alt):
@@ -389,10 +434,10 @@ def expand_alt_node(g, defs, nt, alt):
                 node = Node("default", 0, [selected[0]], ty)
             else:
                 node = Node("default", 0, [("tuple", selected)], ty)
-        elif act[0] in ("user", "fallible"):
+        elif act[0] in ("user", "fallible", "user_unit", "fallible_unit"):
             args = [names[a[1]] if isinstance(a, tuple) else names[a] for a in act[2]]
             kinds = [a[0] if isinstance(a, tuple) else "u8" for a in act[2]]
-            node = Node(act[0], act[1], args, ty)
+            node = Node(act[0].replace("_unit", ""), act[1], args, ty)
             node.argkinds = kinds
         elif act[0] in ("userall", "usereach"):
             node = Node("user", act[1], list(selected), ty)
@@ -400,11 +445,14 @@ def expand_alt_node(g, defs, nt, alt):
             node = Node("user", act[1], [("inc", names[act[2]])], ty)
         else:
             raise ValueError(act)
+        # every inlined symbol of the alternative is evaluated, in symbol order, whether or not the action uses its value
+        node.pre = [v for v in vals if has_sub(v)]
         out.append((leaves, node))
     return out
 
 
-def _resolve_looks(expr, nleaves):
+def _resolve_looks(expr, nleaves, memo=None):
+    memo = {} if memo is None else memo
     k = expr[0]
     if k == "look":
         kind, pos = expr[1], expr[2]
@@ -422,17 +470,13 @@ def _resolve_looks(expr, nleaves):
                 return ("lstart", pos)
             return ("empty",)
     if k == "sub":
-        n = expr[1]
-        n2 = Node(n.kind, n.id, [_resolve_looks(a, nleaves) for a in n.args], n.ty)
-        if hasattr(n, "argkinds"):
-            n2.argkinds = n.argkinds
-        return ("sub", n2)
+        return ("sub", _copy_node(expr[1], lambda a: _resolve_looks(a, nleaves, memo), memo))
     if k in ("pairfst", "pairsnd", "inc", "some"):
-        return (k, _resolve_looks(expr[1], nleaves))
+        return (k, _resolve_looks(expr[1], nleaves, memo))
     if k in ("tuple", "vec"):
-        return (k, [_resolve_looks(e, nleaves) for e in expr[1]])
+        return (k, [_resolve_looks(e, nleaves, memo) for e in expr[1]])
     if k == "vecpush":
-        return ("vecpush", _resolve_looks(expr[1], nleaves), _resolve_looks(expr[2], nleaves))
+        return ("vecpush", _resolve_looks(expr[1], nleaves, memo), _resolve_looks(expr[2], nleaves, memo))
     return expr
 
 
@@ -459,3 +503,47 @@ def spec_productions(g: Grammar):
             v2 = _resolve_looks(_shift(vals[0], 1), len(leaves2))
             out[(name, tuple(l.name for l in leaves2))] = SpecProd(name, leaves2, ("vecpush", ("leaf", 0), v2), "vec")
     return out
+
+
+# --------------------------------------------------------------------------------------------
+# terminal conversion (C02): extern tokens with several `<T>` captures.  The documented value of such a
+# terminal is the tuple of the captured values in the order they are written; terminals with the same
+# tuple type share one symbol variant in the generated code, and struct-like patterns name their fields.
+# Each entry: (terminal, Rust pattern with %s holes, [field types], variant declaration)
+# --------------------------------------------------------------------------------------------
+
+TTS_TERMS = [
+    ("a", "Tok::A(%s)", ["u8"], "A(u8)"),
+    ("p", "Tok::P(%s, %s)", ["u8", "u8"], "P(u8, u8)"),
+    ("k", "Tok::K", [], "K"),
+    ("q", "Tok::Q(%s, %s)", ["u8", "u8"], "Q(u8, u8)"),
+    ("t", "Tok::T(%s, %s, %s)", ["u8", "u16", "u8"], "T(u8, u16, u8)"),
+    ("row", "Tok::Row(" + ", ".join(["%s"] * 12) + ")", ["u8"] * 12, "Row(" + ", ".join(["u8"] * 12) + ")"),
+    ("w", "Tok::W { lo: %s, hi: %s }", ["u8", "u8"], "W { lo: u8, hi: u8 }"),
+    ("m", "Tok::M(%s, %s)", ["u16", "u8"], "M(u16, u8)"),
+]
+
+
+def tts_words(ty, expr):
+    """u8 words that the recording action logs for one captured component"""
+    return [expr] if ty == "u8" else ["%s as u8" % expr, "(%s >> 8) as u8" % expr]
+
+
+def tts_grammar():
+    """-> (lalrpop text, Rust text of the token module).  One production per terminal; action id = index + 1."""
+    L = ["use crate::t_tts::Tok;", "use crate::rec_tts as rec;", "grammar;", "extern {", "    type Location = usize;", "    type Error = u8;", "    enum Tok {"]
+    for name, pat, tys, _ in TTS_TERMS:
+        L.append('        "%s" => %s,' % (name, pat % tuple("<%s>" % t for t in tys)))
+    L += ["    }", "}", "pub S: u8 = {"]
+    for i, (name, pat, tys, _) in enumerate(TTS_TERMS):
+        if not tys:
+            L.append('    "%s" => rec::r(%d, &[]),' % (name, i + 1))
+            continue
+        comp = (lambda j: "x") if len(tys) == 1 else (lambda j: "x.%d" % j)
+        words = [w for j, t in enumerate(tys) for w in tts_words(t, comp(j))]
+        L.append('    <x:"%s"> => rec::r(%d, &[%s]),' % (name, i + 1, ", ".join(words)))
+    L.append("};")
+    T = ["#[allow(dead_code)]", "pub mod t_tts {", "    #[derive(Clone, Debug, PartialEq)]", "    pub enum Tok {"]
+    T += ["        %s," % decl for _, _, _, decl in TTS_TERMS]
+    T += ["    }", "}"]
+    return "\n".join(L) + "\n", "\n".join(T) + "\n"
